@@ -7,12 +7,23 @@
     sector.arc x y d start_mdeg sweep_mdeg tag lx ly rx ry
         -> ps=<tag,lx,ly,rx,ry> bb=<bounding box> pts=<Arc::points()>
 
+    sector.sarc    x y d start_mdeg sweep_mdeg tag lx ly rx ry fill stroke width align tbx tby tbw tbh dx dy
+    sector.ssector x y d start_mdeg sweep_mdeg tag lx ly rx ry bk bnx bny fill stroke width align tbx tby tbw tbh dx dy
+        -> ps=<tag,lx,ly,rx,ry> [bv=<bk,bnx,bny,origin distance>] bb=<styled bounding box>
+           log=<call log of draw(); `di:=px` when it is one draw_iter call with the sequence of px=>
+           m=<map left on R1 with box tb; `=px` when its text equals px=> r2eq=<R2 map == R1 map>
+           px=<pixels() sequence> bbd=<styled bounding box after translate(dx, dy)>
+           sh=<picture of the translated shape == shifted picture>
+
   `tag lx ly rx ry` is what the real `PlaneSector::new(start, sweep)` computed (hook
-  `verif_hooks::plane_sector`, written into the op line by the harness generator); the angles
-  themselves are not used by the model (trigonometry is not modelled).
+  `verif_hooks::plane_sector`, written into the op line by the harness generator); `bk bnx bny` is
+  the bevel kind and bevel-line normal the real `sector::StyledPixelsIterator::new` computed (hook
+  `verif_bevel`); the angles themselves are not used by the model (trigonometry is not modelled).
 -/
 import EG.Driver.Util
 import EG.Model.Sector
+import EG.Model.StyledArc
+import EG.Model.StyledSector
 namespace EG.Driver
 open EG
 
@@ -40,8 +51,107 @@ private def parseSectorArgs (t : Toks) : Pt × Nat × PlaneSector :=
   let (r, _) := t.pt
   (tl, d, ⟨opOfTag tag, l, r⟩)
 
+private def parseOptColor (s : String) : Option Color := if s == "-" then none else some (parseNat s)
+
+private def alignOf : Nat → StrokeAlignment | 0 => .inside | 1 => .center | _ => .outside
+
+/-- style tokens: `fill stroke width align`. -/
+private def parseStyle (t : Toks) : Style × Toks :=
+  let (f, t) := t.str
+  let (s, t) := t.str
+  let (w, t) := t.nat
+  let (a, t) := t.nat
+  (⟨parseOptColor f, parseOptColor s, w, alignOf a⟩, t)
+
+/-- `Rec::unbounded()` of the harness. -/
+private def unboundedBox : Rect := ⟨⟨-1048576, -1048576⟩, ⟨2097152, 2097152⟩⟩
+
+private def mapDefault (B : Rect) (calls : List Call) : List (Pt × Nat) :=
+  canonPix (calls.flatMap (Call.writesDefault B))
+private def mapNative (B : Rect) (calls : List Call) : List (Pt × Nat) :=
+  canonPix (calls.flatMap (Call.writesNative B))
+
+private def fmtCall : Call → String
+  | .drawIter px => "di:" ++ fmtPix px
+  | .fillContiguous a cs => s!"fc:{fmtRect a}:{fmtNats cs}"
+  | .fillSolid a c => s!"fs:{fmtRect a}:{c}"
+  | .clear c => s!"cl:{c}"
+
+private def b01 (b : Bool) : String := if b then "1" else "0"
+
+/-- What the styled streams observe of one styled shape. -/
+private structure StyledObs where
+  calls : List Call   -- `draw()` as target calls
+  pixels : Writes     -- `pixels()`
+  bbox : Rect         -- styled bounding box
+
+/-- Result text after `ps=` / `bv=` (same layout as `styled_report` in m_sector.rs); `obs d` = the
+observation of the shape translated by `d`. -/
+private def styledReport (obs : Pt → StyledObs) (tb : Rect) (d : Pt) : String :=
+  let o := obs ⟨0, 0⟩
+  let pxText := fmtPix o.pixels
+  let logText :=
+    if o.calls == [Call.drawIter o.pixels] then "di:=px" else joinOr "|" (o.calls.map fmtCall)
+  let m1 := mapDefault tb o.calls
+  let m2 := mapNative tb o.calls
+  let mText := let t := fmtPix m1; if t == pxText then "=px" else t
+  let (bbd, sh) :=
+    if d = ⟨0, 0⟩ then (o.bbox, true)
+    else
+      let od := obs d
+      let mu := mapDefault unboundedBox o.calls
+      let md := mapDefault unboundedBox od.calls
+      (od.bbox, md == mu.map (fun w => (w.1 + d, w.2)))
+  s!"bb={fmtRect o.bbox} log={logText} m={mText} r2eq={b01 (m1 == m2)} px={pxText} bbd={fmtRect bbd} sh={b01 sh}"
+
 def handleSector (stream : String) (t : Toks) : Option String :=
   match stream with
+  | "sector.sarc" =>
+    let (tl, t) := t.pt
+    let (d, t) := t.nat
+    let (_start, t) := t.int
+    let (_sweep, t) := t.int
+    let (tag, t) := t.nat
+    let (l, t) := t.pt
+    let (r, t) := t.pt
+    let (st, t) := parseStyle t
+    let (tb, t) := t.rect
+    let (dd, _) := t.pt
+    let ps : PlaneSector := ⟨opOfTag tag, l, r⟩
+    let obs : Pt → StyledObs := fun by_ =>
+      let a : Arc := (⟨tl, d, ps⟩ : Arc).translate by_
+      ⟨a.drawStyled st, a.styledPixels st, a.styledBoundingBox st⟩
+    some s!"ps={fmtPlaneSector ps} {styledReport obs tb dd}"
+  | "sector.ssector" =>
+    let (tl, t) := t.pt
+    let (d, t) := t.nat
+    let (_start, t) := t.int
+    let (_sweep, t) := t.int
+    let (tag, t) := t.nat
+    let (l, t) := t.pt
+    let (r, t) := t.pt
+    let (bk, t) := t.nat
+    let (bn, t) := t.pt
+    let (st, t) := parseStyle t
+    let (tb, t) := t.rect
+    let (dd, _) := t.pt
+    let ps : PlaneSector := ⟨opOfTag tag, l, r⟩
+    let bevel : SectorBevel :=
+      match bk with
+      | 0 => none
+      | 1 => some (.interior, bn)
+      | _ => some (.exterior, bn)
+    let obs : Pt → StyledObs := fun by_ =>
+      let s : Sector := (⟨tl, d, ps⟩ : Sector).translate by_
+      ⟨s.drawStyled st bevel, s.styledPixels st bevel, s.styledBoundingBox st⟩
+    -- `bv=`: kind and normal are echoed, the origin distance is the model's
+    let bvText :=
+      match ((⟨tl, d, ps⟩ : Sector).styledPixelsIt st bevel).bevel with
+      | none => "0,0,0,0"
+      | some (k, eq) =>
+        let kn := match k with | .interior => 1 | .exterior => 2
+        s!"{kn},{eq.normalVector.x},{eq.normalVector.y},{eq.originDistance}"
+    some s!"ps={fmtPlaneSector ps} bv={bvText} {styledReport obs tb dd}"
   | "sector.points" =>
     let (tl, d, ps) := parseSectorArgs t
     let s : Sector := ⟨tl, d, ps⟩
